@@ -209,7 +209,7 @@ def run(ctx, known, built):
         return
     summ = json.load(open(os.path.join(out, "summary.json")))
     # ---- the property's own clauses on the implementation
-    for f in summ.pop("failures"):
+    for f in sorted(summ.pop("failures"), key=lambda f: len(f.get("ops", []))):
         ctx.violations.append(f)
     files = []
     meta = {}
@@ -257,6 +257,12 @@ def run(ctx, known, built):
     else:
         res = ctx.coq_eval_many(files, timeout=2400)
     ok_shards = 0
+    ndis = [0]
+
+    def disagree(d):
+        ndis[0] += 1
+        if len(ctx.disagreements) < 200:
+            ctx.disagreements.append(d)
     for vf, (rc, o) in sorted(res.items()):
         m = meta[vf]
         if rc != 0:
@@ -280,7 +286,7 @@ def run(ctx, known, built):
                     seen.add(j)
                     ops = pre + decode(n, rem, j)
                     # the model's digest is not printed in full (only differing characters); re-derive what we can
-                    ctx.disagreements.append({
+                    disagree({
                         "what": "model and implementation differ on a history over the empty store",
                         "part": "exhaustive", "kind": kind, "ops": ops, "history": describe(kind, ops),
                         "implementation": show_digest(kind, dec3(dig[3 * j:3 * j + 3])) if 3 * j + 3 <= len(dig) else "missing"})
@@ -291,7 +297,7 @@ def run(ctx, known, built):
                 c["case_index"] = m[1] + idx
                 c["model_observations"] = repr(mt)[:3000]
                 c["implementation_observations"] = wl[m[1] + idx].rsplit("|}, ", 1)[-1][:3000]
-                ctx.disagreements.append(c)
+                disagree(c)
         else:
             for (idx, mt) in v:
                 ctx.disagreements.append({"what": "glyph::Image::new differs from the model", "model": repr(mt), "case": gl[:600]})
@@ -319,7 +325,9 @@ def run(ctx, known, built):
         "input_distribution": summ,
         "os_level_probe": summ.get("os_level_probe"),
         "traces_validated_against_impl": total,
+        "disagreeing_cases_total": ndis[0],
     })
+    ctx.disagreements.sort(key=lambda d: len(d.get("ops", [])) if isinstance(d, dict) else 0)
     for l in wj[:3]:
         c = json.loads(l)
         ctx.samples.append({"data_tree": c["dd"], "images_tree": c["di"], "operations": len(c["ops"])})
